@@ -31,6 +31,22 @@ RATES = {"A": F(110, 100), "B": F(125, 100), "C": F(150, 100)}
 # a second target currency that only some converters cover: the most recent
 # converter decides, also when it has no rate for the pair
 GBP = {"A": F(80, 100), "C": F(90, 100)}
+# a twin of A: another converter object with exactly the same base currency
+# and rates (two converters fed from one rate list); whatever "the same
+# converter" means for removal, it must not confuse these two
+RATES["T"] = RATES["A"]
+GBP["T"] = GBP["A"]
+
+
+def rename(h, m):
+    """the history h with converter names mapped through m"""
+    out = []
+    for a in h:
+        if a[0] == "with":
+            out.append(("with", m.get(a[1], a[1]), rename(a[2], m), a[3]))
+        else:
+            out.append((a[0], m.get(a[1], a[1])))
+    return tuple(out)
 
 
 # ---------------------------------------------------------------- money
@@ -327,22 +343,42 @@ FN = {  # name -> table {(from, to): factor}
 }
 
 
-def generic_case(chk, h, label, bound=False):
+def generic_case(chk, h, label, bound=False, tables=False):
     """h: sequence of ('reg'|'rem', fname); bound: every registration and
     removal passes a freshly made bound method of the callable (equal to,
-    but not the same object as, the one passed before)"""
+    but not the same object as, the one passed before); tables: the
+    converters are the library's own TableConverter objects (which answer
+    the tabulated pair and its reverse, and None otherwise) instead of
+    harness callables"""
     ref = (lambda f: ["a", V("$" + f), "conv"]) if bound else \
         (lambda f: V("$" + f))
     if bound:
         label += "-bound-method"
+    if tables:
+        label += "-table-converters"
     steps = [{"cls": {"name": "Noref", "kw": {}}, "id": "Noref"}]
     for s in ("t0", "t1", "t2"):
         steps.append({"e": M(V("Noref"), "new_unit", ["s", s])})
     for name, table in FN.items():
+        if tables:
+            steps.append({"id": "$" + name, "e": [
+                "c", ["g", "quantity:TableConverter"],
+                [["dict", [[["t", [U(a), U(b)]], ["t", [num(f), ["i", 0]]]]
+                           for (a, b), f in table.items()]]]]})
+            steps.append({"name_mc": [V("$" + name), name]})
+            continue
         steps.append({"id": "$" + name, "e": ["convfn", {
             "name": name,
             "table": [[a, b, num(f), ["i", 0]] for (a, b), f in
                       table.items()]}]})
+
+    def factor(f, a, b):
+        """what converter f answers for a -> b (None: nothing)"""
+        if (a, b) in FN[f]:
+            return FN[f][(a, b)]
+        if tables and (b, a) in FN[f]:
+            return 1 / FN[f][(b, a)]
+        return None
     expected = {}
     reg = []
     cnt = [0]
@@ -402,7 +438,7 @@ def generic_case(chk, h, label, bound=False):
                     c = obs.get("%s.%s%s" % (k, a, b))
                     winner = None
                     for f in reversed(exp["reg"]):
-                        if (a, b) in FN[f]:
+                        if factor(f, a, b) is not None:
                             winner = f
                             break
                     if winner is None:
@@ -414,14 +450,15 @@ def generic_case(chk, h, label, bound=False):
                         if winner != first:
                             chk.count("answered by an older converter "
                                       "(newer returned None)")
-                        want_amt = 10 * FN[winner][(a, b)]
+                        want_amt = 10 * factor(winner, a, b)
                         if c is None or c.get("k") != "Q" or \
                                 val(c) != want_amt or c["u"] != b:
                             bad.append("%s: %s->%s must be answered by %s "
                                        "(%s), got %s" % (k, a, b, winner,
                                                          want_amt, brief(c)))
                 z = obs.get(k + ".zero")
-                if any(("t0", "t1") in FN[f] for f in exp["reg"]):
+                if any(factor(f, "t0", "t1") is not None
+                       for f in exp["reg"]):
                     chk.count("zero results of generic converters")
                     if z is None or z.get("k") != "Q" or val(z) != 0 or \
                             z["u"] != "t1":
@@ -460,17 +497,24 @@ def run(chk, R, tier, seed):
               "answered by an older converter (newer returned None)",
               "histories|money-exhaustive", "histories|money-random",
               "histories|generic-exhaustive", "histories|generic-random",
-              "histories|generic-exhaustive-bound-method"):
+              "histories|generic-exhaustive-bound-method",
+              "histories|money-exhaustive-twins",
+              "histories|generic-exhaustive-table-converters"):
         chk.require(c)
     L = 5 if tier == "quick" else 6
     hs = enum_histories(L)
     chk.exhaustive["money histories up to size %d (2 converters)" % L] = True
     chk.extra["exhaustive_money_histories"] = len(hs)
     cases = [money_case(chk, h, ("A", "B"), "money-exhaustive") for h in hs]
+    # the same histories with two value-equal converters
+    for h in enum_histories(L - 1):
+        cases.append(money_case(chk, rename(h, {"B": "T"}), ("A", "T"),
+                                "money-exhaustive-twins"))
     nrand = 300 if tier == "quick" else 6000
-    for _ in range(nrand):
-        h = rand_history(rng, rng.randint(5, 40), ("A", "B", "C"))
-        cases.append(money_case(chk, h, ("A", "B", "C"), "money-random"))
+    for i in range(nrand):
+        names = ("A", "B", "C", "T") if i % 3 == 0 else ("A", "B", "C")
+        h = rand_history(rng, rng.randint(5, 40), names)
+        cases.append(money_case(chk, h, names, "money-random"))
     run_cases(chk, R, cases)
     # generic
     acts = [(a, f) for a in ("reg", "rem") for f in FN]
@@ -483,10 +527,13 @@ def run(chk, R, tier, seed):
             if n <= 3:
                 cases.append(generic_case(chk, h, "generic-exhaustive",
                                           bound=True))
+                cases.append(generic_case(chk, h, "generic-exhaustive",
+                                          tables=True))
     chk.exhaustive["generic histories up to length %d (3 callables)" % GL] \
         = True
     for _ in range(150 if tier == "quick" else 3000):
         h = tuple(rng.choice(acts) for _ in range(rng.randint(4, 25)))
+        fl = rng.random()
         cases.append(generic_case(chk, h, "generic-random",
-                                  bound=rng.random() < 0.3))
+                                  bound=fl < 0.3, tables=fl > 0.7))
     run_cases(chk, R, cases, preload=("quantity",))
